@@ -438,14 +438,28 @@ def run(prog, chk):
     where = "%s:%s" % (f.file, f.line)
     if tas and rel:
         # from the exit of the spin loop every path to the function exit releases the lock
-        spin = [b for b in f.blocks.values() if b.get("cond") is not None and tas[0] in f.desc(b["cond"]) and len(b["succ"]) == 2]
-        ok = bool(spin)
+        defs0_ = q.local_defs(f)
         acq_edges = []
-        for b in spin:
-            # the edge on which testAndSet returned 0 (the lock was free and is ours now)
-            nt = fin.null_test(f, b["cond"])
-            out_edge = b["succ"][nt[1]] if nt is not None else b["succ"][1]
-            acq_edges.append((b["id"], out_edge))
+        kt = fin.key(f, tas[0])
+        for b in f.blocks.values():
+            c_ = b.get("cond")
+            if c_ is None or len(b["succ"]) != 2 or None in b["succ"]:
+                continue
+            expr = c_
+            cn_ = f.nodes[f.strip(c_)]
+            if cn_["k"] == "DeclRefExpr" and cn_["ref"].get("dk") == "local":
+                rd_ = q.reaching_def(f, cn_["ref"]["id"], f.strip(c_), defs0_)      # `const bool acquired = testAndSet(lock) == 0; if(acquired)`
+                if rd_ is not None:
+                    expr = rd_
+            if tas[0] not in [f.strip(expr)] + list(f.desc(expr)):
+                continue
+            # the edge on which testAndSet returned 0 (the lock was free and is ours now), by evaluation of the test
+            v0, v1 = fin.eval_expr(f, expr, {kt: 0}), fin.eval_expr(f, expr, {kt: 1})
+            if v0 is None or v1 is None or bool(v0) == bool(v1):
+                continue
+            acq_edges.append((b["id"], b["succ"][0] if v0 else b["succ"][1]))
+        ok = bool(acq_edges)
+        for _b, out_edge in acq_edges:
             if f.find_path((out_edge, 0), {f.exit_pos()}, avoid=q.pos_of(f, rel), after_src=False) is not None:
                 ok = False
         if ok:
